@@ -14,6 +14,7 @@ MT = "des/src/net/runtime/mod.rs"
 TP = "des/src/net/topology.rs"
 EV = "des/src/net/runtime/events.rs"
 CTX = "des/src/net/runtime/ctx.rs"
+UW = "des/src/net/runtime/unwind.rs"
 
 # (id, property, file, regex, replacement, expectation)   expectation: "kill" (exit 1 expected) | "keep" (exit 0 expected)
 PACK = [
@@ -62,6 +63,10 @@ PACK = [
     ("sd-no-restart", "C09", CTX, r"        if let Some\(restart\) = restart \{", "        if let Some(restart) = None::<SimTime> {", "kill"),
     ("sd-drop-on-next-owner", "C09", EV, r"            if !cur\.endpoint\.owner\(\)\.is_active\(\) \{", "            if !next.endpoint.owner().is_active() {", "kill"),
     ("eq-sd-rename", "C09", CTX, r"        if let Some\(restart\) = restart \{\n            rt\.add_event\(\n                NetEvents::ModuleRestartEvent\(ModuleRestartEvent \{\n                    module: module\.clone\(\),\n                \}\),\n                restart,", "        if let Some(at) = restart {\n            rt.add_event(\n                NetEvents::ModuleRestartEvent(ModuleRestartEvent {\n                    module: module.clone(),\n                }),\n                at,", "keep"),
+    ("pf-catch-inverted", "C13", UW, r"if !self\.ctx\.stereotyp\.get\(\)\.on_panic_catch \{", "if self.ctx.stereotyp.get().on_panic_catch {", "kill"),
+    ("pf-end-always-ok", "C13", MT, r"        if error\.is_empty\(\) \{\n            Ok\(\(\)\)", "        if error.is_empty() || true {\n            Ok(())", "kill"),
+    ("pf-start-error-dropped", "C13", MT, r"                    rt\.app\.error\.extend\(module\.at_sim_start\(stage\)\.err\(\)\);", "                    let _ = module.at_sim_start(stage);", "kill"),
+    ("eq-pf-catch-nested", "C13", UW, r"            if !self\.ctx\.stereotyp\.get\(\)\.on_panic_catch \{\n                return Err\(PanicError \{\n                    path: self\.ctx\.path\(\),\n                    payload: unwind,\n                \}\);\n            \}", "            let caught = self.ctx.stereotyp.get().on_panic_catch;\n            if !caught {\n                return Err(PanicError {\n                    path: self.ctx.path(),\n                    payload: unwind,\n                });\n            }", "keep"),
     # equivalent edits: must stay green
     ("eq-swap-t0-t1", "C01", CQ, r"                self\.t0 \+= self\.t;\n                self\.t1 \+= self\.t;\n            \}", "                self.t1 += self.t;\n                self.t0 += self.t;\n            }", "keep"),
     ("eq-extra-stmt", "C01", CQ, r"\n        self\.len \+= 1;", "\n        self.len += 1;\n        let _dbg = self.len;", "keep"),
